@@ -159,23 +159,80 @@ func execEngine(args []string) string {
 		pub, pubm := evaluation.Evaluation(p), evaluation.Evaluation(q)
 		return fmt.Sprintf("raw=%d mirror=%d mirrorfen=%s p.mirror=%s p.bound=%s p.mirrorpub=%s", raw, mir, fenField(string(mf)), b2s(raw == mir), b2s(bound), b2s(pub == pubm))
 	case "evalc":
-		evaluation.VerifResetCache()
-		var scores, raws []string
-		transparent := true
+		// "depends only on the position": the history is evaluated in the given order and, from a cleared cache again, in the
+		// reverse order; every position must get the same score at each of its occurrences in both passes, and that score
+		// must be the uncached one
+		var poss []*position.Position
 		for _, a := range args[1:] {
 			p, ok := posFromArg(a)
 			if !ok {
 				return "res=badpos"
 			}
-			s := evaluation.Evaluation(p)
-			r := evaluation.VerifEvalUncached(p)
+			poss = append(poss, p)
+		}
+		evaluation.VerifResetCache()
+		var scores, raws []string
+		transparent := true
+		seenScore := map[string]int16{}
+		note := func(a string, v int16) {
+			if old, ok := seenScore[a]; ok && old != v {
+				transparent = false
+			}
+			seenScore[a] = v
+		}
+		for i, a := range args[1:] {
+			s := evaluation.Evaluation(poss[i])
+			r := evaluation.VerifEvalUncached(poss[i])
 			scores = append(scores, fmt.Sprint(s))
 			raws = append(raws, fmt.Sprint(r))
 			if s != r {
 				transparent = false
 			}
+			note(a, s)
 		}
-		return fmt.Sprintf("scores=%s raws=%s p.transparent=%s", strings.Join(scores, ","), strings.Join(raws, ","), b2s(transparent))
+		evaluation.VerifResetCache()
+		for i := len(poss) - 1; i >= 0; i-- {
+			note(args[1+i], evaluation.Evaluation(poss[i]))
+		}
+		// the same on one position object that is used the way the search uses it: evaluate, null move, evaluate, take the
+		// null move back, evaluate; make a move on a copy, evaluate — every score must be the score a freshly set up object
+		// of that position gets
+		object := true
+		for i := range poss {
+			if i >= 4 {
+				break
+			}
+			p, _ := posFromArg(args[1+i])
+			if inCheckSafe(p, p.SideToMove) || inCheckSafe(p, types.SwitchColor(p.SideToMove)) {
+				continue
+			}
+			type obs struct {
+				fen string
+				v   int16
+			}
+			var seen []obs
+			if guard(func() {
+				seen = append(seen, obs{p.ToFen(), evaluation.Evaluation(p)})
+				ep := p.MakeNullMove()
+				seen = append(seen, obs{p.ToFen(), evaluation.Evaluation(p)})
+				p.UnMakeNullMove(ep)
+				seen = append(seen, obs{p.ToFen(), evaluation.Evaluation(p)})
+				if lms := legalMoves(p); len(lms) > 0 {
+					q := *p
+					q.MakeMove(lms[len(lms)/2].m)
+					seen = append(seen, obs{q.ToFen(), evaluation.Evaluation(&q)})
+					seen = append(seen, obs{p.ToFen(), evaluation.Evaluation(p)})
+				}
+			}) {
+				object = false
+			}
+			for _, o := range seen {
+				if q, err := position.NewFromFen(o.fen); err == nil && evaluation.Evaluation(q) != o.v {
+					object = false
+				}
+			}
+		}
+		return fmt.Sprintf("scores=%s raws=%s p.transparent=%s p.object=%s", strings.Join(scores, ","), strings.Join(raws, ","), b2s(transparent), b2s(object))
 	case "see":
 		p, ok := posFromArg(args[1])
 		if !ok {
